@@ -442,12 +442,15 @@ func execute(c *run.Ctx, sc *scenario) run.Result {
 	// polyform welds vertices at 3 decimals of a world unit; see thinFeature. Merging two crossings that
 	// no mesh edge joins is the documented granularity of the canvas, not a marching fault, so such a
 	// case is not decided (inconclusive, counted).
-	if why, ok := thinFeature(rec, g, sc.Cut, sc.CPU); ok {
-		res.Inconclusive = "degenerate (surface feature thinner than the 0.001 weld): " + why
-		return res
-	}
+	thinWhy, thin := thinFeature(rec, g, sc.Cut, sc.CPU)
 	st := g.stats()
 	res.Count("lattice_samples", int64(rec.samples))
+	if rec.offGrid > 0 {
+		res.Count("field_evaluations_off_the_lattice", int64(rec.offGrid))
+	}
+	if rec.repeated > 0 && sc.API != "Field.March" {
+		res.Count("lattice_points_sampled_more_than_once_by_addfield", int64(rec.repeated))
+	}
 	if mismatch > 0 {
 		res.Violate("field-sample-mismatch", builder, sc.Mode, fmt.Sprintf("%d sampled lattice points are on the other side of the threshold than for the union of the shapes; %s || case: %s", mismatch, firstMis, desc), sc)
 	}
@@ -460,6 +463,10 @@ func execute(c *run.Ctx, sc *scenario) run.Result {
 	}
 	if unsampledInside > 0 {
 		res.Violate("below-threshold-point-not-sampled", "MarchingCanvas.AddField", sc.Mode, fmt.Sprintf("%d below-threshold lattice points inside the declared domain were never sampled; %s || case: %s", unsampledInside, firstUns, desc), sc)
+	}
+	if thin && len(res.Violations) == 0 { // refutations that do not depend on the weld are reported regardless
+		res.Inconclusive = "degenerate (surface feature thinner than the 0.001 weld): " + thinWhy
+		return res
 	}
 	if st.Edges == 0 {
 		res.Inconclusive = "degenerate (no lattice point below the threshold): nothing to march"
